@@ -466,6 +466,9 @@ class SimFile:
 
 def sim_open(path, mode='r', *args, **kwargs):
     s = ACTIVE
+    cb = getattr(s, 'on_open', None) if s is not None else None
+    if cb is not None:
+        cb(str(path), mode)      # "meanwhile, another process ..." - a check's way to place a complete foreign call right here
     if s is None or s.current is None:
         return builtins.open(path, mode, *args, **kwargs)
     _fs_seam('open', path)
